@@ -15,6 +15,16 @@ build() { # build <output> <go build args...>
   local out=$1; shift
   flock bin/.buildlock go build -trimpath -o "$out" "$@"
 }
+if [ "$1" = "replay" ]; then
+  # replay <file>: schedules recorded by C08/C09 are re-executed step by step; every other violation
+  # is replayed by re-running the originating check at the recorded tier and looking for the same key.
+  [ -f "$2" ] || { echo "no such replay file: $2" >&2; exit 2; }
+  prop=$(jq -r .property "$2"); tier=$(jq -r '.tier // "quick"' "$2"); key=$(jq -r .key "$2")
+  if ! jq -e '(.replay.check=="C08" or .replay.check=="C09") and (.replay.choices|type=="array")' "$2" > /dev/null 2>&1; then
+    echo "replaying $prop key=$key by re-running the $tier check"
+    VERIF_REPLAY_KEY="$key" exec "$0" "$prop" "$tier"
+  fi
+fi
 case "$1" in
   C01|C12|C13|C14|C18)
     # streams checks: regenerate the binding table from the current vocabulary files, then build
